@@ -767,7 +767,14 @@ def correspondence(ctx: Ctx, payloads, tag="c"):
         for i, o in zip(redo, again):
             obs[i] = o
     units = []  # (payload, obs, label, coq text)
+    invalid = [p for p, o in zip(payloads, obs) if "invalid_spec" in o]
+    ctx.count("generated_trees_rejected_by_xarray", len(invalid))
+    if len(invalid) > max(3, len(payloads) // 20):
+        ctx.broken.append(Broken("correspondence", "tree generator: too many specs are not valid DataTrees",
+                                 f"{len(invalid)} of {len(payloads)}", invalid[0]))
     for p, o in zip(payloads, obs):
+        if "invalid_spec" in o:
+            continue
         if "crash" in o or "driver_error" in o:
             ctx.broken.append(Broken("correspondence", "implementation driver failed", str(o)[:600], p))
             continue
